@@ -58,6 +58,7 @@ from nested_pandas.series.utils import (
     transpose_struct_list_array,
     transpose_struct_list_type,
     validate_struct_list_array_for_equal_lengths,
+    copy_if_numpy_backed,
 )
 
 __all__ = ["NestedExtensionArray"]
@@ -921,7 +922,7 @@ class NestedExtensionArray(ExtensionArray):
             value = np.repeat(value, self.flat_length)
 
         try:
-            pa_array = pa.array(value, from_pandas=True, type=pa_type)
+            pa_array = pa.array(copy_if_numpy_backed(value), from_pandas=True, type=pa_type)
         except (ValueError, TypeError) as e:
             raise TypeError(
                 f"New values must be convertible to the existing element pyarrow type, {pa_type}. "
